@@ -96,8 +96,8 @@ def Loaded.all (p : Tree → Bool) : Loaded → Bool
   | .tree t => p t
   | _ => true
 
-/-- Hypothesis excluded by finding `iterator_enabled_expr`: the `enabled` of every
-    iterator's template is plain text (no `{{ }}`). -/
+/-- A syntactic condition under which finding `iterator_enabled_expr` cannot strike: every
+    iterator's template is one role whose `enabled` is plain text (no `{{ }}`). -/
 def iterEnabledLiteral : Tmpl → Bool
   | .nil => true
   | .agg _ k n => iterEnabledLiteral k && iterEnabledLiteral n
@@ -105,10 +105,10 @@ def iterEnabledLiteral : Tmpl → Bool
   | .call _ _ _ n => iterEnabledLiteral n
   | .iter _ _ b n =>
     (match b with
-     | .agg h _ _ => isLiteral h.enabled
-     | .task h _ _ _ => isLiteral h.enabled
-     | .call h _ _ _ => isLiteral h.enabled
-     | _ => true) && iterEnabledLiteral b && iterEnabledLiteral n
+     | .agg h _ .nil => isLiteral h.enabled
+     | .task h _ _ .nil => isLiteral h.enabled
+     | .call h _ _ .nil => isLiteral h.enabled
+     | _ => false) && iterEnabledLiteral b && iterEnabledLiteral n
 
 /-- the iterator's template is exactly one role (as the YAML grammar guarantees) -/
 def single : Tmpl → Bool
